@@ -25,11 +25,26 @@
 //   p id v              set ds_pending_data
 //   R tidx now          _dispatch_timers_run(heaps, tidx, nows{now}) ; prints fired events "id:pending" in order, then state
 //   P tidx now          if needs_program: _dispatch_timers_program ; prints kernel calls, then state
+//   W n0 n1 n2          _dispatch_event_loop_drain_timers with the three clock readings faked; prints events # kernel calls # dirty # state
 //   S                   print state
-//   state = per heap tidx: count needs_program armed min0 min1 | per timer: armed ident tgt dl itv pending ent0 ent1 hascfg refdelta
+//   state = dirty | per heap tidx: count needs_program armed min0 min1 | per timer: armed ident tgt dl itv pending ent0 ent1 hascfg refdelta
+#include "internal.h"
+// redirections apply to the calls made by event.c only (internal.h is already included: its declarations keep their names)
+void c11_timer_arm(dispatch_timer_heap_t dth, uint32_t tidx, dispatch_timer_delay_s range, dispatch_clock_now_cache_t nows);
+void c11_timer_delete(dispatch_timer_heap_t dth, uint32_t tidx);
+static uint64_t c11_fake_now[DISPATCH_CLOCK_COUNT];
+static inline uint64_t c11_now_cached(dispatch_clock_t clock, dispatch_clock_now_cache_t cache)
+{
+	// a prefilled cache entry wins (R / P commands); otherwise the fake clock of the W command
+	if (cache->nows[clock]) return cache->nows[clock];
+	if (c11_fake_now[clock]) return (cache->nows[clock] = c11_fake_now[clock]);
+	return _dispatch_time_now_cached(clock, cache);
+}
 #define _dispatch_event_loop_timer_arm c11_timer_arm
 #define _dispatch_event_loop_timer_delete c11_timer_delete
+#define _dispatch_time_now_cached c11_now_cached
 #include "event/event.c"
+#undef _dispatch_time_now_cached
 #include <inttypes.h>
 
 #define MAXT 4096
@@ -42,7 +57,7 @@ static char kbuf[4096];
 static size_t klen;
 void c11_timer_arm(dispatch_timer_heap_t dth, uint32_t tidx, dispatch_timer_delay_s range, dispatch_clock_now_cache_t nows)
 {
-	uint64_t target = range.delay + _dispatch_time_now_cached(DISPATCH_TIMER_CLOCK(tidx), nows);
+	uint64_t target = range.delay + c11_now_cached(DISPATCH_TIMER_CLOCK(tidx), nows);
 	klen += (size_t)snprintf(kbuf + klen, sizeof kbuf - klen, " arm:%u:%" PRIu64 ":%" PRIu64, tidx, target, (uint64_t)range.leeway);
 }
 void c11_timer_delete(dispatch_timer_heap_t dth, uint32_t tidx)
@@ -150,6 +165,7 @@ static void dump_addr(void)
 
 static void dump_state(void)
 {
+	printf("%d ", _dispatch_timers_heap[0].dth_dirty_bits != 0);
 	for (int i = 0; i < DISPATCH_TIMER_COUNT; i++) {
 		dispatch_timer_heap_t d = &_dispatch_timers_heap[i];
 		printf("%u %u %u %ld %ld ", d->dth_count, (unsigned)d->dth_needs_program, (unsigned)d->dth_armed,
@@ -238,6 +254,18 @@ int main(void)
 			klen = 0; kbuf[0] = 0;
 			if (_dispatch_timers_heap[id].dth_needs_program) _dispatch_timers_program(_dispatch_timers_heap, (uint32_t)id, &nows);
 			printf("P%s # ", kbuf); dump_state();
+			break;
+		}
+		case 'W': {
+			// the manager's whole timer pass with the three clocks faked: W now_uptime now_monotonic now_wall
+			unsigned long long n0, n1, n2;
+			sscanf(line + 1, "%llu %llu %llu", &n0, &n1, &n2);
+			c11_fake_now[0] = n0; c11_fake_now[1] = n1; c11_fake_now[2] = n2;
+			elen = 0; ebuf[0] = 0; klen = 0; kbuf[0] = 0;
+			_dispatch_event_loop_drain_timers(_dispatch_timers_heap, DISPATCH_TIMER_COUNT);
+			c11_fake_now[0] = c11_fake_now[1] = c11_fake_now[2] = 0;
+			printf("W%s #%s # %u ", ebuf, kbuf, (unsigned)_dispatch_timers_heap[0].dth_dirty_bits);
+			dump_state();
 			break;
 		}
 		case 'S': dump_state(); break;
